@@ -1,0 +1,84 @@
+//go:build verif
+
+package tbtc
+
+import (
+	"crypto/ecdsa"
+
+	"github.com/keep-network/keep-common/pkg/persistence"
+	"github.com/keep-network/keep-core/pkg/chain"
+	"github.com/keep-network/keep-core/pkg/protocol/group"
+	"github.com/keep-network/keep-core/pkg/tecdsa"
+)
+
+// Verification hook (build tag verif): re-exports existing identifiers only.
+
+// VerifC38Registry wraps the unexported walletRegistry.
+type VerifC38Registry struct{ wr *walletRegistry }
+
+// VerifC38Signer is the exported view of a signer.
+type VerifC38Signer struct {
+	WalletPublicKey *ecdsa.PublicKey
+	Operators       []chain.Address
+	MemberIndex     group.MemberIndex
+	Marshalled      []byte
+}
+
+func VerifC38NewWalletRegistry(
+	handle persistence.ProtectedHandle,
+	calculateWalletIdFunc CalculateWalletIdFunc,
+) (*VerifC38Registry, error) {
+	wr, err := newWalletRegistry(handle, calculateWalletIdFunc)
+	if err != nil {
+		return nil, err
+	}
+	return &VerifC38Registry{wr}, nil
+}
+
+func (r *VerifC38Registry) RegisterSigner(
+	walletPublicKey *ecdsa.PublicKey,
+	operators []chain.Address,
+	memberIndex group.MemberIndex,
+	share *tecdsa.PrivateKeyShare,
+) error {
+	return r.wr.registerSigner(newSigner(walletPublicKey, operators, memberIndex, share))
+}
+
+func verifC38View(signers []*signer) []VerifC38Signer {
+	var out []VerifC38Signer
+	for _, s := range signers {
+		b, err := s.Marshal()
+		if err != nil {
+			b = nil
+		}
+		out = append(out, VerifC38Signer{
+			WalletPublicKey: s.wallet.publicKey,
+			Operators:       s.wallet.signingGroupOperators,
+			MemberIndex:     s.signingGroupMemberIndex,
+			Marshalled:      b,
+		})
+	}
+	return out
+}
+
+func (r *VerifC38Registry) GetSigners(walletPublicKey *ecdsa.PublicKey) []VerifC38Signer {
+	return verifC38View(r.wr.getSigners(walletPublicKey))
+}
+
+func (r *VerifC38Registry) GetWalletsPublicKeys() []*ecdsa.PublicKey {
+	return r.wr.getWalletsPublicKeys()
+}
+
+func (r *VerifC38Registry) GetWalletByPublicKeyHash(pkh [20]byte) (*ecdsa.PublicKey, bool) {
+	w, ok := r.wr.getWalletByPublicKeyHash(pkh)
+	return w.publicKey, ok
+}
+
+func (r *VerifC38Registry) GetWalletByID(id [32]byte) (*ecdsa.PublicKey, bool) {
+	w, ok := r.wr.getWalletByID(id)
+	return w.publicKey, ok
+}
+
+func (r *VerifC38Registry) ArchiveWallet(pkh [20]byte) error {
+	return r.wr.archiveWallet(pkh)
+}
